@@ -106,6 +106,13 @@ Theorem part_check_sound : forall ballots parts, part_check ballots parts = true
 Proof. exact Proofs.Approval.part_check_sound. Qed.
 Print Assumptions part_check_sound.
 
+Theorem part2_check_correct : forall alts ballots parts,
+  part2_check alts ballots parts = true <->
+  part_check ballots parts = true /\
+  (length parts = 1 \/ (length parts = 2 /\ SetEq (concat parts) alts)).
+Proof. exact Proofs.Approval.part2_check_unfold. Qed.
+Print Assumptions part2_check_correct.
+
 Theorem part2_check_sound : forall alts ballots parts, part2_check alts ballots parts = true -> TwoPart alts ballots.
 Proof. exact Proofs.Approval.part2_check_sound. Qed.
 Print Assumptions part2_check_sound.
